@@ -115,9 +115,11 @@ let () =
          spec "c17_row_count" (Stdlib.List.length tuples = Stdlib.List.length saved_rows) "";
          spec "c17_declared_types" (Stdlib.List.for_all (SpecPgcopy.typed_ok k.cols) tuples) "a field does not have its column's declared width";
          (* the values read through the COPY column list are the values those names denote *)
-         let denoted = Stdlib.List.map2 (fun tu row ->
-             Stdlib.List.for_all2 (fun (_, data) v -> be_value data = v) tu row) tuples saved_rows in
-         spec "c17_field_values" (Stdlib.List.for_all (fun b -> b) denoted) "");
+         if Stdlib.List.length tuples = Stdlib.List.length saved_rows then begin
+           let denoted = Stdlib.List.map2 (fun tu row ->
+               Stdlib.List.length tu = Stdlib.List.length row && Stdlib.List.for_all2 (fun (_, data) v -> be_value data = v) tu row) tuples saved_rows in
+           spec "c17_field_values" (Stdlib.List.for_all (fun b -> b) denoted) ""
+         end);
       spec "c17_column_order" (k.wfields = k.ccols)
         (Printf.sprintf "written: %s ; COPY list: %s" (String.concat "," k.wfields) (String.concat "," k.ccols));
       (* C18 *)
